@@ -2,7 +2,7 @@
 # Confirm a sub-agent's seeded change in its scratch worktree /tmp/seed/<ID>:
 #   demo fails with the change, passes without; the unedited test-suite passes with the change.
 # Then archive it under /verif/seeded/<ID>/ (patch.diff, demo.py, notes.md, meta.json).
-ID=$1; ROUND=${2:-1}; if [ "$ROUND" = "2" ]; then WT=/tmp/seed2/$ID; OUT=/verif/seeded/${ID}b; elif [ "$ROUND" = "3" ]; then WT=/tmp/seed3/$ID; OUT=/verif/seeded/${ID}c; elif [ "$ROUND" = "4" ]; then WT=/tmp/seed4/$ID; OUT=/verif/seeded/${ID}d; else WT=/tmp/seed/$ID; OUT=/verif/seeded/$ID; fi
+ID=$1; ROUND=${2:-1}; if [ "$ROUND" = "2" ]; then WT=/tmp/seed2/$ID; OUT=/verif/seeded/${ID}b; elif [ "$ROUND" = "3" ]; then WT=/tmp/seed3/$ID; OUT=/verif/seeded/${ID}c; elif [ "$ROUND" = "4" ]; then WT=/tmp/seed4/$ID; OUT=/verif/seeded/${ID}d; elif [ "$ROUND" = "5" ]; then WT=/tmp/seed5/$ID; OUT=/verif/seeded/${ID}e; else WT=/tmp/seed/$ID; OUT=/verif/seeded/$ID; fi
 set -u
 cd $WT || exit 2
 [ -f SEEDED/patch.diff ] || { echo "$ID: no patch"; exit 2; }
